@@ -313,6 +313,62 @@ func genSmpHistory(w *bufio.Writer, rng *rand.Rand, maxN int, quantOnly bool) {
 	fmt.Fprintf(w, "smp [%s]\n", strings.Join(ops, ","))
 }
 
+// genSmpExtreme: values near the top of the float64 range. All counting values share one sign and lie in
+// one band of magnitudes (so no difference of two of them overflows); sums and sums of squares may leave the
+// range, where an infinity is the correct float64 answer. Entries of weight zero do not count and may hold
+// anything finite, up to the largest float64 of the other sign. Every query is followed by a dump: the
+// caller's data stay as they were.
+func genSmpExtreme(w *bufio.Writer, rng *rand.Rand) {
+	n := 2 + rng.Intn(9)
+	mag := []float64{1e150, 1.3e154, 2e154, 1e170, 1e200, 1e295, 1e300, 1e307, 8e307}[rng.Intn(9)]
+	sign := float64(rng.Intn(2)*2 - 1)
+	xs := make([]float64, n)
+	for i := range xs {
+		xs[i] = sign * mag * (0.25 + 0.75*rng.Float64())
+		if rng.Intn(3) == 0 {
+			xs[i] = sign * mag * (float64(1+rng.Intn(4)) / 4)
+		}
+	}
+	weighted := rng.Intn(2) == 0
+	ws := "-"
+	if weighted && mag > 5e307 {
+		// the weighted mean multiplies a deviation by its weight (up to 3 here) before dividing by the
+		// running weight: that product has to stay in range for the formula to deliver anything
+		for i := range xs {
+			xs[i] /= 2
+		}
+		mag /= 2
+	}
+	if weighted {
+		wv := make([]float64, n)
+		live := 0
+		for i := range wv {
+			wv[i] = float64(1 + rng.Intn(3))
+			if rng.Intn(3) == 0 {
+				wv[i] = 0
+				xs[i] = []float64{-sign * math.MaxFloat64, -sign * 1.5e308, sign * math.MaxFloat64, 0, -sign * mag, 5e-324}[rng.Intn(6)]
+			} else {
+				live++
+			}
+		}
+		if live == 0 {
+			wv[0], xs[0] = 1, sign*mag
+		}
+		ws = fmtFs(wv)
+	}
+	ops := []string{fmt.Sprintf("[new,0,%s,%s,0]", fmtFs(xs), ws)}
+	for q := 0; q < 4+rng.Intn(5); q++ {
+		var names []string
+		if weighted {
+			names = []string{"mean", "sum", "bounds", "weight", "fbounds"}
+		} else {
+			names = []string{"mean", "fmean", "sum", "bounds", "var", "sd", "sd", "var"}
+		}
+		ops = append(ops, fmt.Sprintf("[%s,0]", names[rng.Intn(len(names))]), "[dump,0]")
+	}
+	fmt.Fprintf(w, "smp [%s]\n", strings.Join(ops, ","))
+}
+
 func sortFloats(xs []float64) {
 	for i := 1; i < len(xs); i++ {
 		for j := i; j > 0 && xs[j] < xs[j-1]; j-- {
@@ -325,6 +381,9 @@ func genC09(w *bufio.Writer, tier string, rng *rand.Rand) {
 	nh := pick(tier, 3000, 120000)
 	for k := 0; k < nh; k++ {
 		genSmpHistory(w, rng, pick(tier, 40, 200), false)
+	}
+	for k := 0; k < pick(tier, 250, 6000); k++ {
+		genSmpExtreme(w, rng)
 	}
 	nv := pick(tier, 600, 20000)
 	for k := 0; k < nv; k++ {
